@@ -49,7 +49,9 @@ pub fn generate(rng: &mut Rng) -> NetScenario {
         let peer = format!("192.0.2.{}:{}", 10 + i, 40_000 + i);
         let intent = if rng.chance(1, 2) { 2 } else { 3 };
         let mut spec = ClientSpec::base(rng, intent);
-        spec.name = format!("player{i}");
+        // (now and then somebody announces the name another connection announces as well - an impostor or a second
+        // session; the UUIDs, addresses and shared secrets stay their own)
+        spec.name = if i > 0 && rng.chance(1, 4) { format!("player{}", rng.below(i as u64)) } else { format!("player{i}") };
         spec.uuid = format!("{:032x}", 0x1000_0000_0000_0000_0000_0000_0000_0000u128 + ((i as u128) << 64) + u128::from(rng.next_u64()));
         spec.info_delay_ns = *rng.pick(&[0u64, 0, ms(3), ms(700)]);
         spec.coalesce = rng.chance(1, 2);
@@ -109,7 +111,7 @@ pub fn domain_ok(sc: &NetScenario) -> bool {
         && sc.clients.iter().enumerate().all(|(i, c)| {
             let p = &c.spec;
             matches!(p.intent, 2 | 3)
-                && p.name == format!("player{i}")
+                && p.name.strip_prefix("player").is_some_and(|d| d.parse::<usize>().is_ok_and(|j| j <= i))
                 && p.script.is_none()
                 && p.mutations.is_empty()
                 && p.cuts.is_empty()
@@ -172,7 +174,8 @@ pub fn check_isolation(sc: &NetScenario, out: &NetOutcome, rep: &mut RunReport, 
             Some(ck) => ck.id.clone(),
             None => derived_identity(&spec.spec.name, spec.spec.uuid_u128()),
         };
-        let my_auth: Vec<&Value> = auth_calls.iter().filter(|e| e.detail["name"].as_str() == Some(&spec.spec.name)).map(|e| &e.detail).collect();
+        // (found by the claimed UUID, which is unique; names may be announced by more than one connection)
+        let my_auth: Vec<&Value> = auth_calls.iter().filter(|e| e.detail["uuid"].as_str() == Some(&spec.spec.uuid) && e.detail["name"].as_str() == Some(&spec.spec.name)).map(|e| &e.detail).collect();
         let ls = c.view.first("LoginSuccess").and_then(|p| Some((p.fields["name"].as_str()?.to_string(), u128::from_str_radix(p.fields["uuid"].as_str()?, 16).ok()?)));
         if identity {
             match &ls {
@@ -188,9 +191,10 @@ pub fn check_isolation(sc: &NetScenario, out: &NetOutcome, rep: &mut RunReport, 
                 }
             }
         }
-        // routing facts of this connection, found by the (unique) player name
-        let my_filter: Vec<&Value> = filt_calls.iter().filter(|e| e.detail["name"].as_str() == Some(&expect.name)).map(|e| &e.detail).collect();
-        let my_strat: Vec<&Value> = strat_calls.iter().filter(|e| e.detail["name"].as_str() == Some(&expect.name)).map(|e| &e.detail).collect();
+        // routing facts of this connection, found by the (unique) UUID of the identity it has to have
+        let eu = format!("{:032x}", expect.uuid);
+        let my_filter: Vec<&Value> = filt_calls.iter().filter(|e| e.detail["name"].as_str() == Some(&expect.name) && e.detail["uuid"].as_str() == Some(&eu)).map(|e| &e.detail).collect();
+        let my_strat: Vec<&Value> = strat_calls.iter().filter(|e| e.detail["name"].as_str() == Some(&expect.name) && e.detail["uuid"].as_str() == Some(&eu)).map(|e| &e.detail).collect();
         let transfer = c.view.first("Transfer");
         if routing {
             if transfer.is_none() {
